@@ -9,7 +9,7 @@ streams, within a time cap) and by naming the changed functions in the evidence,
 code gets the deepest look exactly when it happens.  Fingerprints are SHA-256 of `ast.dump` of the function
 (no line numbers, comments or formatting; docstrings stripped), so re-indenting or commenting changes nothing.
 """
-import ast, hashlib, json, os
+import ast, hashlib, json, os, sys
 
 VERIF = os.path.dirname(os.path.dirname(os.path.abspath(__file__)))
 ANCHORS = os.path.join(VERIF, "lean", "anchors.json")
@@ -73,7 +73,10 @@ def changed(pid, repo):
     """[(file, qualname, 'changed'|'added'|'removed')] for the files property `pid` is anchored in; None if no record"""
     if not os.path.exists(ANCHORS):
         return None
-    rec = json.load(open(ANCHORS)).get("files", {})
+    doc = json.load(open(ANCHORS))
+    if doc.get("python") != "%d.%d" % sys.version_info[:2]:
+        return None          # ast.dump differs between Python versions: a record made by another interpreter says nothing
+    rec = doc.get("files", {})
     out = []
     for f in property_files(pid):
         p = os.path.join(repo, f)
